@@ -21,17 +21,19 @@ var knownHits []knownHit
 // whose store can fail the n-th Load.
 type faultSession struct {
 	*Session
-	cmpCount  int
-	cmpFail   int // index of the comparison that fails, -1 = none
-	aborted   bool
-	lastObs   string
-	positions int
-	marCount  int
-	marFail   int
-	lastErr   string
-	lastViol  string
+	cmpCount    int
+	cmpFail     int // index of the comparison that fails, -1 = none
+	aborted     bool
+	lastObs     string
+	positions   int
+	marCount    int
+	marFail     int
+	unmCount    int
+	unmFail     int // index of the Unmarshal callback call that fails, -1 = none
+	lastErr     string
+	lastViol    string
 	interrupted string // model line of a Delete kept in its interrupted state
-	kfSeen    int
+	kfSeen      int
 }
 
 func newFaultSession(c Cfg) *faultSession {
@@ -48,6 +50,21 @@ func newFaultSession(c Cfg) *faultSession {
 			return nil, errInjected
 		}
 		return base(v)
+	}
+	fs.unmFail = -1
+	ubase := fs.Session.unmarshal
+	if ubase == nil {
+		ubase = json.Unmarshal
+	}
+	if !c.RegMode() { // (registered-types decoding hands the whole node to the callback: left alone)
+		fs.Session.unmarshal = func(b []byte, v interface{}) error {
+			n := fs.unmCount
+			fs.unmCount++
+			if n == fs.unmFail {
+				return errInjected
+			}
+			return ubase(b, v)
+		}
 	}
 	def := mast.DefaultKeyCompare(fs.Session.marshal)
 	fs.Session.keyCompare = func(a, b interface{}) (int, error) {
@@ -271,6 +288,9 @@ func (fs *faultSession) runWithFault(kind string, idx int, op string) (string, b
 	case "mar":
 		fs.marCount = 0
 		fs.marFail = idx
+	case "unm":
+		fs.unmCount = 0
+		fs.unmFail = idx
 	}
 	fs.Session.transientFault = true
 	fs.Session.faultReadsViol = ""
@@ -286,6 +306,10 @@ func (fs *faultSession) runWithFault(kind string, idx int, op string) (string, b
 	if kind == "mar" {
 		hit = fs.marCount > idx
 		fs.marFail = -1
+	}
+	if kind == "unm" {
+		hit = fs.unmCount > idx
+		fs.unmFail = -1
 	}
 	return o1, hit
 }
@@ -386,12 +410,12 @@ func genFaultCase(r *rand.Rand, cfg Cfg) Case {
 			ops = append(ops, fmt.Sprintf("root 0 %d", nroot), fmt.Sprintf("load %d 0", nroot))
 			nroot++
 		}
-		kind := pick(r, []string{"load", "load", "cmp"})
+		kind := pick(r, []string{"load", "load", "cmp", "unm"})
 		if cfg.KK == "sk" {
 			kind = pick(r, []string{"load", "cmp", "mar", "mar"}) // struct keys: order and layer go through Marshal
 		}
 		idx := r.Intn(8)
-		if kind == "cmp" || kind == "mar" {
+		if kind == "cmp" || kind == "mar" || kind == "unm" {
 			idx = r.Intn(30)
 		}
 		k := pick(r, uni)
